@@ -1,5 +1,6 @@
 """C07 — corrupted objects are detected and dropped, never served; intact ones unharmed
 (db/__init__.py, db/local.py, diff.py, checkout.py, state.py)."""
+import contextlib
 import os
 import stat
 
@@ -384,12 +385,193 @@ def run_failed_add(ctx, n):
                     "add": kind if kind != "ok" else errs, "check": v, "exists": ex, "mode": oct(os.stat(op).st_mode & 0o777) if os.path.exists(op) else None})
 
 
+EDGE_ARRIVALS = ["protected", "chmod_refused", "unprotected_after", "raw", "absent"]
+EDGE_QUERIES = ["check", "exists", "oids_exist", "add", "checkout"]
+WRITABLE_MODES = [0o644, 0o664, 0o600, 0o666, 0o640, 0o400]
+
+
+def edge_content(rng):
+    """object contents at the boundaries of "size": nothing at all, a single byte, more than one read buffer, ordinary"""
+    r = rng.random()
+    if r < 0.35:
+        return b""
+    if r < 0.55:
+        return rng.choice([b"\n", b"\x00", b"a", b" "])
+    if r < 0.65:
+        return bytes([rng.randrange(256)]) * rng.choice([65536, 65537, 1 << 20])
+    return gen.rand_content(rng) + b"e"
+
+
+@contextlib.contextmanager
+def chmod_refused(under):
+    """a file system that refuses to change modes below `under` (Samba, a shared cache owned by somebody else - the NOTE
+    in LocalHashFileDB.protect): os.chmod is wrapped from the harness process for the duration of one library call"""
+    real = os.chmod
+    base = os.path.join(under, "")
+
+    def refusing(path, *a, **kw):
+        if isinstance(path, (str, os.PathLike)) and os.fspath(path).startswith(base):
+            raise PermissionError(1, "Operation not permitted (injected)", os.fspath(path))
+        return real(path, *a, **kw)
+
+    os.chmod = refusing
+    try:
+        yield
+    finally:
+        os.chmod = real
+
+
+def run_unprotected_intact(ctx, n):
+    """the "intact ones unharmed" half on objects that are complete but NOT write-protected: a local store trusts only
+    mode 0o444, so everything else goes through the re-hash - which must accept them whatever their size (the empty file's
+    object is a legal zero-length object), keep them and make them read-only.  How an intact object comes to be writable:
+    the add ran where chmod is refused, somebody reset the mode afterwards, it was placed by hand / by an add interrupted
+    before protecting, or it is being added right now into a store that verifies.  Oracle only."""
+    from dvc_objects.errors import ObjectFormatError
+
+    from dvc_data.hashfile import load
+    from dvc_data.hashfile.checkout import CheckoutError, checkout
+    from dvc_data.hashfile.hash_info import HashInfo
+    from dvc_data.hashfile.state import State
+
+    rng = ctx.rng
+    for _ in range(n):
+        root = ctx.mkdtemp()
+        local = rng.random() < 0.75
+        use_state = rng.random() < 0.3  # opening a hash-state cache dominates the cost of a case
+        verify_store = rng.random() < 0.4
+        st = State(root_dir=root, tmp_dir=os.path.join(root, "tmp")) if use_state else None
+        cfg = {"state": st} if st else {}
+        if verify_store:
+            cfg["verify"] = True
+        odb = stores.make_odb(os.path.join(root, "odb"), local=local, **cfg)
+        fs = stores.fs_local()
+        src = os.path.join(root, "src")
+        os.makedirs(src)
+        contents = {}
+        for _i in range(rng.randrange(1, 4)):
+            b = edge_content(rng)
+            contents[md5hex(b)] = b
+        files = list(contents)
+        tree_entries = {("n%d" % i,): rng.choice(files) for i in range(rng.randrange(1, 4))}
+        traw = stores.tree_bytes(tree_entries)
+        toid = md5hex(traw) + ".dir"
+        contents[toid] = traw
+        target = rng.choice(files + [toid] if rng.random() < 0.15 else files)
+        query = rng.choice(EDGE_QUERIES if local else [q for q in EDGE_QUERIES if q != "exists"])
+        arrival = {}
+        viol = []
+        setup_failed = None
+        try:
+            for oid, b in contents.items():
+                p = os.path.join(src, oid)
+                with open(p, "wb") as f:
+                    f.write(b)
+                how = rng.choice(EDGE_ARRIVALS if oid == target else EDGE_ARRIVALS[:-1])
+                if how == "absent":
+                    query = "add"
+                elif how == "raw":
+                    stores.put_raw(odb.path, oid, b)
+                else:
+                    # the add that brings the object in is itself under the property (the store may be a verifying one)
+                    errs0 = []
+                    with chmod_refused(odb.path) if how == "chmod_refused" else contextlib.nullcontext():
+                        k0, r0 = safe_call(lambda: odb.add(p, fs, oid, on_error=lambda o, e: errs0.append([o, type(e).__name__])))
+                    if k0 != "ok" or errs0 or not os.path.isfile(obj_path(odb, oid)):
+                        setup_failed = {"why": "an add of an intact object was rejected or did not leave it in the store", "oid": oid,
+                                        "size": len(b), "chmod_refused": how == "chmod_refused", "result": r0, "failed": errs0}
+                        arrival[oid] = how
+                        break
+                    if how == "unprotected_after":
+                        os.chmod(obj_path(odb, oid), rng.choice(WRITABLE_MODES))
+                arrival[oid] = how
+            if setup_failed:
+                case = {"unprotected_intact": {"local": local, "state": use_state, "verify_store": verify_store, "setup": True,
+                                               "objects": [[o, len(contents[o]), arrival[o]] for o in arrival]}}
+                ctx.case(case, nontrivial=True)
+                ctx.count("unprotected_intact:setup_add_failed")
+                ctx.oracle(False, case, setup_failed)
+                continue
+            # the file system may still refuse chmod when the query runs: then nothing can be made read-only
+            refused_q = arrival[target] == "chmod_refused" and rng.random() < 0.3
+            guard = chmod_refused(odb.path) if refused_q else contextlib.nullcontext()
+            can_protect = local and not refused_q
+            before = snapshot(odb)
+            op = obj_path(odb, target)
+            with guard:
+                if query == "check":
+                    kind, res = safe_call(lambda: odb.check(target), expected=(ObjectFormatError, FileNotFoundError))
+                    got = "ok" if kind == "ok" else res
+                    after = snapshot(odb)
+                    _audit(viol, "check", target, got, before, after, can_protect)
+                elif query == "exists":
+                    kind, res = safe_call(lambda: odb.exists(target))
+                    got = "ok" if (kind == "ok" and res is True) else ("absent" if kind == "ok" else res)
+                    after = snapshot(odb)
+                    _audit(viol, "exists", target, got, before, after, can_protect)
+                elif query == "oids_exist":
+                    q = [o for o in contents if o == target or rng.random() < 0.6]
+                    kind, res = safe_call(lambda: sorted(odb.oids_exist(q)))
+                    got = res
+                    after = snapshot(odb)
+                    if local:
+                        for o in q:
+                            _audit(viol, "oids_exist", o, "ok" if (kind == "ok" and o in res) else "absent", before, after, can_protect)
+                elif query == "add":
+                    # (re-)adding the same intact bytes; the store verifies by configuration or because the caller says so
+                    errs = []
+                    vkw = {} if verify_store and rng.random() < 0.5 else {"verify": True}
+                    kind, res = safe_call(lambda: odb.add(os.path.join(src, target), fs, target,
+                                                          on_error=lambda o, e: errs.append([o, type(e).__name__]), **vkw))
+                    got = [kind if kind == "ok" else res, errs]
+                    after = snapshot(odb)
+                    if kind != "ok" or errs:
+                        viol.append({"why": "a verifying add of an intact object was rejected", "oid": target, "result": got})
+                    if target not in after or after[target][0] != target.split(".")[0]:
+                        viol.append({"why": "a verifying add of an intact object did not leave it in the store", "oid": target, "result": got})
+                    elif can_protect and not after[target][1]:
+                        viol.append({"why": "a verifying add left a local object writable", "oid": target})
+                else:
+                    dest = os.path.join(root, "out")
+                    kind, res = safe_call(lambda: checkout(dest, fs, load(odb, HashInfo("md5", toid)), odb, force=True, state=st),
+                                          expected=(CheckoutError, ObjectFormatError, FileNotFoundError))
+                    got = kind if kind == "ok" else res
+                    after = snapshot(odb)
+                    if kind != "ok":
+                        viol.append({"why": "checkout of a directory all of whose objects are intact failed", "result": got})
+                    for k, f in tree_entries.items():
+                        fp = os.path.join(dest, *k)
+                        served = None
+                        if os.path.isfile(fp):
+                            with open(fp, "rb") as fh:
+                                served = md5hex(fh.read())
+                        if served != f:
+                            viol.append({"why": "checkout did not materialise an intact object", "name": k[0], "oid": f, "served_md5": served})
+            for o, bb in before.items():
+                if bb[0] == o.split(".")[0] and o not in after:
+                    viol.append({"why": "an intact object was deleted by " + query, "oid": o, "size": len(contents[o]),
+                                 "was_protected": bb[1]})
+        finally:
+            if st:
+                st.close()
+        case = {"unprotected_intact": {"local": local, "state": use_state, "verify_store": verify_store, "query": query,
+                                       "target": target, "chmod_refused_at_query": refused_q,
+                                       "objects": [[o, len(contents[o]), arrival[o]] for o in contents], "result": got}}
+        ctx.case(case, nontrivial=arrival[target] != "protected" or not local)
+        ctx.count("unprotected_intact:query=%s" % query)
+        ctx.count("unprotected_intact:arrival=%s" % arrival[target])
+        ctx.count("unprotected_intact:target_size=%s" % ("0" if not contents[target] else "1" if len(contents[target]) == 1 else ">1"))
+        for v in viol:
+            ctx.oracle(False, case, v)
+
+
 def run(ctx):
     ctx.rule = (
         "stores of both classes with 2-4 file objects and a directory object, hash-state cache absent / warm (entry saved by add); "
         "histories of 3-8 steps of tampering (truncate, append, rewrite with same or different length, replace by rename; mode "
         "left writable or re-protected; mtime moved forward by 1 ms to 2.5 s relative to the previous one), check(), oids_exist(), and forced checkout of the "
-        "directory object before and after tampering; verifying add with corrupt sources and mismatching pre-existing objects, the caller's verify left out / None / True, issued directly or by transfer() from a generic or local (write-protected) source store, with and without hard links; adds that fail (source gone / unreadable, check_exists off as transfer issues them) over a tampered object. "
+        "directory object before and after tampering; verifying add with corrupt sources and mismatching pre-existing objects, the caller's verify left out / None / True, issued directly or by transfer() from a generic or local (write-protected) source store, with and without hard links; adds that fail (source gone / unreadable, check_exists off as transfer issues them) over a tampered object; "
+        "intact objects of boundary sizes (empty, one byte, larger than a read buffer) that are not write-protected (chmod refused during the add and possibly still at query time, mode reset to a writable one, placed raw, or absent) queried by check / exists / oids_exist / verifying (re-)add / checkout of the directory listing them, stores with and without hash-state cache and verify. "
         "non-trivial = at least one tamper step"
     )
     ctx.assumptions = ["tampering is visible in (inode, mtime, size)", "a local object whose mode is exactly 0o444 is trusted without hashing (by design)"]
@@ -397,6 +579,7 @@ def run(ctx):
         run_history(ctx)
     run_verify_add(ctx, ctx.n(80, 800))
     run_failed_add(ctx, ctx.n(40, 400))
+    run_unprotected_intact(ctx, ctx.n(60, 700))
 
 
 def search(ctx):
@@ -404,6 +587,7 @@ def search(ctx):
         run_history(ctx)
     run_verify_add(ctx, 600)
     run_failed_add(ctx, 400)
+    run_unprotected_intact(ctx, 700)
 
 
 def replay(ctx, payload):
